@@ -912,3 +912,30 @@ def abstract_rotation(eng, callee, a, m, fc):
     if name == 'inverse':
         return rot_inv(a[0])
     raise Unsupported('AbstractRotation::' + name)
+
+
+@ext(r'(?:^|::)Triangle::(\w+)$')
+def triangle_method(eng, callee, a, m, fc):
+    name = m.group(1)
+    t = unref(a[0])
+    pa, pb, pc = [vec_of(x) for x in t[:3]]
+    if name in ('normal', 'scaled_normal'):
+        n = vcross(vsub(pb, pa), vsub(pc, pa))
+        if name == 'scaled_normal':
+            return n
+        nn, nz = norm_nonzero(eng, n)
+        if isinstance(nn, Poison) or not nz:
+            return En('None')
+        # parry: Unit::try_new(scaled_normal, DEFAULT_EPSILON)
+        if eng.branch(f_cmp('Gt', nn, fconst('2.220446049250313e-16'))):
+            return En('Some', [unit([f_div(x, nn) for x in n])])
+        return En('None')
+    if name == 'area':
+        n = vcross(vsub(pb, pa), vsub(pc, pa))
+        return f_div(norm_of(n), 2.0 if MODE[0] == 'conc' else z3.RealVal(2))
+    if name == 'center':
+        three = 3.0 if MODE[0] == 'conc' else z3.RealVal(3)
+        return pt([f_div(f_add(f_add(x, y), z), three) for x, y, z in zip(pa, pb, pc)])
+    if name == 'new':
+        return Struct('Triangle', [a[0], a[1], a[2]])
+    raise Unsupported('Triangle::' + name)
